@@ -17,8 +17,6 @@
 package history
 
 import (
-	"fmt"
-
 	"github.com/bbva/qed/balloon/cache"
 	"github.com/bbva/qed/crypto/hashing"
 )
@@ -26,6 +24,8 @@ import (
 type computeHashVisitor struct {
 	hasher hashing.Hasher
 	cache  cache.Cache
+
+	missing bool // a required node was not found in the cache (audit path)
 }
 
 func newComputeHashVisitor(hasher hashing.Hasher, cache cache.Cache) *computeHashVisitor {
@@ -52,8 +52,11 @@ func (v *computeHashVisitor) VisitPartialInnerHashOp(op partialInnerHashOp) hash
 
 func (v *computeHashVisitor) VisitGetCacheOp(op getCacheOp) hashing.Digest {
 	hash, ok := v.cache.Get(op.Position().Bytes())
-	if !ok { // TODO maybe we should return an error
-		panic(fmt.Sprintf("Oops, something went wrong. There should be a cached element at position %v", op.Position()))
+	if !ok {
+		// the audit path comes from an untrusted server: a missing
+		// entry invalidates the proof, it must not crash the verifier
+		v.missing = true
+		return nil
 	}
 	return hash
 }
